@@ -1053,6 +1053,7 @@ import fixed as FX
 
 D8_TEXT = "D8 the fixed stacks used with cstring_buffer have capacity N + EmptyRulesCount + 1, which counts empty RULES of the grammar, not empty reductions on the stack: S->A A A A A A b; A->eps on \"b\" needs 8 slots, capacity is 4; the parse throws 'cvector capacity exceeded' (corpus/replays/D8.cpp)"
 
+D17_TEXT = "D17 with error rules AND a reachable non-productive nonterminal the parse may never terminate: a reduction is made on a lookahead that nothing can continue, the next state rejects the same term and recovery shifts the error symbol again without consuming anything (S->c error S|error|C error A|b A; C->S C A|C A b on \"bbb\": corpus/replays/D17.cpp); identified by: the grammar has such a nonterminal and error rules, and the pinned model loops on the same input. The proved termination theorem assumes a productive grammar"
 D16_TEXT = "D16 the fixed stacks used with cstring_buffer do not count error-recovery tokens, which take a stack entry without consuming a byte: S -> error a error b on \"ab\" needs 5 slots, capacity is 4; the parse throws 'cvector capacity exceeded' (corpus/replays/D16.cpp)"
 def known_D8(rep):
     if FX.run_replay(rep, "D8", fixed=False): rep.known_finding(D8_TEXT)
@@ -1075,7 +1076,13 @@ def check_C06(rep):
             if "BUFFERFAULT" in ri["res"]:
                 rep.fail(kind="read-or-iterator-arithmetic-outside-the-callers-buffer", case=cid, input=inp, grammar=run.meta[cid], detail=ri["res"].split("BUFFERFAULT")[1][:200])
             if base == "LOOP":
-                rep.fail(kind="parse-of-a-conflict-free-grammar-does-not-terminate", case=cid, input=inp, grammar=run.meta[cid])
+                # known finding D17: error rules + a reachable non-productive nonterminal, and the pinned model loops on the same input
+                rules_, root_ = run.abstract_rules(cid)
+                _, has_np_ = cyk.productive_part(rules_, root_, lambda sy: sy if sy[0] == "t" else None)
+                if has_np_ and run.uses_error(cid) and mi is not None and mi["res"] == "LOOP":
+                    rep.notes.setdefault("d17_instances", set()).add(cid)
+                else:
+                    rep.fail(kind="parse-of-a-conflict-free-grammar-does-not-terminate", case=cid, input=inp, grammar=run.meta[cid])
             if base.startswith("THROW"):
                 rep.fail(kind="parse-threw", case=cid, input=inp, grammar=run.meta[cid], detail=base[:120])
             if (0 in inp["bytes"] or any(b >= 128 for b in inp["bytes"])) and base == "NONE": nontriv.add((cid, j))
@@ -1105,6 +1112,10 @@ def check_C06(rep):
     FX.run_replay(rep, "D6", fixed=True, cxx="clang++", flags="-fsanitize=address,undefined -fno-sanitize-recover=all")
     FX.run_replay(rep, "D7", fixed=True, cxx="clang++", flags="-fsanitize=address,undefined -fno-sanitize-recover=all")
     known_D8(rep)
+    if FX.run_replay(rep, "D17", fixed=False):
+        d17 = sorted(rep.notes.get("d17_instances", []), key=int); rep.notes["d17_instances"] = d17
+        rep.known_finding(D17_TEXT + (f" [{len(d17)} grammar(s) of this run, e.g. {run.meta[d17[0]]['rules']}]" if d17 and run is not None else ""))
+    else: rep.tie_broken("known finding D17 no longer reproduces (corpus/replays/D17.cpp passes): known_findings.json is stale")
     rep.cov["distinct_nontrivial"] = len(nontriv) + 2
     rep.cov["rule"] = "H1: every input (all byte values incl. NUL and >= 0x80, whitespace only, empty, junk at every position) goes through a user buffer whose iterator records any dereference or arithmetic outside [begin, end], plus string_view_buffer and string_buffer; a line-limited stream detects non-termination; H2: the matcher on all strings through a buffer that records reads past the end; sanitize.cpp under ASan+UBSan (10^5-token and 2*10^4-deep inputs, every byte value at a fixed position, truncations); per-instance obligation safe_ok on every real table. Non-trivial = distinct rejected input containing NUL or a byte >= 0x80 (plus the two sanitizer programs)."
     rep.cov["samples"] = [{"program": "harness/fixed/sanitize.cpp", "flags": "clang++ -fsanitize=address,undefined"}, {"replay": "corpus/replays/D6.cpp (lexical error, checking buffer)"}]
